@@ -28,11 +28,11 @@ Step ==
         /\ Finite(pre, dom)
         /\ (e.chain = 1 => pre = t)
         /\ LET Spre == Nodes(pre, pre.root) IN
-           /\ CASE e.op = 1 -> /\ GoodAvl(post, Spre \cup {e.k})
+           /\ CASE e.op = 1 -> /\ GoodAvl(post, Spre \cup {e.k}) = TRUE
                                /\ e.ret = (IF e.k \in Spre THEN e.k ELSE 0)
                                /\ (e.k \in Spre => post = pre)
                 [] e.op = 2 -> /\ e.k \in Spre
-                               /\ GoodAvl(post, Spre \ {e.k})
+                               /\ GoodAvl(post, Spre \ {e.k}) = TRUE
                                /\ e.ret = 0
                 [] e.op = 3 -> /\ post = pre
                                /\ e.ret = (IF e.k \in Spre THEN e.k ELSE 0)
